@@ -110,8 +110,14 @@ def runOps (c : Cont) (ops : List Json) : Except String (List Json × Option Con
       | o => err s!"op {o}"
   pure (outs, cur)
 
-def partOf (kind : String) (j : Json) : Except String (Option Cont) := do
-  let base ← parseCont kind (← j.getObjVal? "base")
+/-- a part of a concatenation: a base container followed by selections.  Input plumbing only: a part without its
+    own `base` starts from the request's common base (parsed once; keeps requests with hundreds of parts of one
+    large container small). -/
+def partOf (kind : String) (j : Json) (common : Option Cont := none) : Except String (Option Cont) := do
+  let base ← match j.getObjVal? "base", common with
+    | .ok b, _ => parseCont kind b
+    | .error _, some c => pure c
+    | .error e, none => err e
   let (_, cur) ← runOps base (← getArr j "ops")
   pure cur
 
@@ -124,7 +130,10 @@ def handle (j : Json) : Except String Json := do
     pure (Json.arr outs.toArray)
   | "cat" =>
     let dim ← getNat j "dim"
-    let parts ← (← getArr j "parts").mapM (partOf kind)
+    let common ← match j.getObjVal? "base" with
+      | .ok b => some <$> parseCont kind b
+      | .error _ => pure none
+    let parts ← (← getArr j "parts").mapM (partOf kind · common)
     if parts.any Option.isNone then pure (Json.str "part-raises") else
     let ps := parts.filterMap id
     if kind == "mnt" then
